@@ -37,6 +37,8 @@ def mk_track(case):
             import numpy as np
             vals = list(np.array(vals, dtype=np.float64))
         tr.createAnalyticalFeature(k, vals)
+    if case.get('extra'):                         # a fourth feature under another name (assignments then overwrite it)
+        tr.createAnalyticalFeature(case['extra'][0], [_f(v) for v in case['extra'][1]])
     return tr
 
 
@@ -66,9 +68,10 @@ def coq_case(case, obs):
     if 'exc' in obs or ('err' not in obs and _hasinf(obs)):
         return None                               # an infinity is not a value of the rational model: left to the oracle
     n = len(case['X'])
-    t = '{| xs := %s; ys := %s; zs := %s; ts := %s; dico := [(s_ "a", 0%%nat); (s_ "b", 1%%nat); (s_ "s", 2%%nat)]; feats := %s |}' % (
-        _col(case['X']), _col(case['Y']), _col(case['Z']), _col([1000 + 10 * i for i in range(n)]),
-        coq_list(_col([case['a'][i], case['b'][i], case['s'][i]]) for i in range(n)))
+    ex4 = case.get('extra')
+    t = '{| xs := %s; ys := %s; zs := %s; ts := %s; dico := [(s_ "a", 0%%nat); (s_ "b", 1%%nat); (s_ "s", 2%%nat)%s]; feats := %s |}' % (
+        _col(case['X']), _col(case['Y']), _col(case['Z']), _col([1000 + 10 * i for i in range(n)]), '; (s_ "%s", 3%%nat)' % ex4[0] if ex4 else '',
+        coq_list(_col([case['a'][i], case['b'][i], case['s'][i]] + ([ex4[1][i]] if ex4 else [])) for i in range(n)))
     if 'err' in obs:
         ex = 'XErr %s' % ERRC.get(obs['err'], 'Other')
     else:
@@ -313,6 +316,10 @@ def gen_trees(rng, n, tier):
         if any(abs(v) > 1e9 for v in exp if v == v):
             continue
         lhs = rng.choice([None, None, None, 'c', 'a', 'x', 'y', 'z'])
+        if rng.random() < 0.2:                    # a fourth feature, under a name close to the reserved ones (substrings of "xyzt", prefixes of keywords) or an ordinary one; often the target
+            nm = rng.choice(['xy', 'yz', 'zt', 'xyz', 'xyzt', 'id', 'tx', 'ab', 'p', 'x2'])
+            c['extra'] = [nm, [rng.choice([1, 2, -1, 0.5, 7]) for _ in c['X']]]
+            lhs = rng.choice([nm, nm, nm, None, 'c'])
         s = pr(e, rng)
         if rng.random() < 0.15:
             s = ' ' + s.replace('+', ' + ').replace('(', '( ')
@@ -339,7 +346,10 @@ def oracle_trees(case, obs):
     if lhs is None:
         if obs['ret'] is None or not close_lists(obs['ret'], exp):
             return 'operate(%r) returned %r, ordinary arithmetic on the expression tree gives %r' % (case['prog'], obs['ret'], exp)
-        if names != ['a', 'b', 's'] or any(not close_lists(cols[k], env[k]) for k in 'abs') or obs['x'] != enc(env['x']) or obs['y'] != enc(env['y']) or obs['z'] != enc(env['z']):
+        base = ['a', 'b', 's'] + ([case['extra'][0]] if case.get('extra') else [])
+        if case.get('extra') and not close_lists(cols.get(case['extra'][0], []), [_f(v) for v in case['extra'][1]]):
+            return 'operate(%r) without "=" modified feature %r' % (case['prog'], case['extra'][0])
+        if names != base or any(not close_lists(cols[k], env[k]) for k in 'abs') or obs['x'] != enc(env['x']) or obs['y'] != enc(env['y']) or obs['z'] != enc(env['z']):
             return 'operate(%r) without "=" modified the track (features %r)' % (case['prog'], names)
         return None
     got = {'x': obs['x'], 'y': obs['y'], 'z': obs['z']}.get(lhs)
@@ -347,7 +357,9 @@ def oracle_trees(case, obs):
         got = cols.get(lhs)
     if got is None or not close_lists(got, exp):
         return 'after operate(%r) reading %r gives %r, the expression evaluates to %r' % (case['prog'], lhs, got, exp)
-    expn = ['a', 'b', 's'] + (['c'] if lhs == 'c' else [])
+    expn = ['a', 'b', 's'] + ([case['extra'][0]] if case.get('extra') else []) + (['c'] if lhs == 'c' else [])
+    if case.get('extra') and lhs != case['extra'][0] and not close_lists(cols.get(case['extra'][0], []), [_f(v) for v in case['extra'][1]]):
+        return 'operate(%r) changed feature %r as a side effect' % (case['prog'], case['extra'][0])
     if sorted(names) != sorted(expn):
         return 'after operate(%r) the features listed are %r, expected %r' % (case['prog'], names, expn)
     for k in 'abs':
